@@ -2,6 +2,7 @@ package asserts_test
 
 import (
 	"os"
+	"runtime/debug"
 	"runtime/pprof"
 	"testing"
 	"time"
@@ -10,6 +11,8 @@ import (
 )
 
 func TestVerifSim(t *testing.T) {
+	// short-lived garbage only (encodings, parsed headers): collect less often
+	debug.SetGCPercent(400)
 	if p := os.Getenv("VERIF_DEV_PPROF"); p != "" {
 		f, _ := os.Create(p)
 		pprof.StartCPUProfile(f)
